@@ -40,7 +40,7 @@ func verifTwoDecoders(i int) (*PathDecoder, *PathDecoder, verifSeed) {
 	A := verifParseHCL(s.src, fa)
 	B := verifStretch(s.src, fb, 0, 2)
 	mk := func(name string, f *hcl.File) *PathDecoder {
-		pc := &PathContext{Schema: verifSchemas(s.schema), Files: map[string]*hcl.File{name: f}, Functions: verifFunctions(), ReferenceTargets: verifTargets()}
+		pc := &PathContext{Schema: verifSchemas(s.schema), Files: map[string]*hcl.File{name: f}, Functions: verifFunctions(), ReferenceTargets: verifTargets(), Validators: verifValidators()}
 		d := NewDecoder(&verifPathReader{paths: map[string]*PathContext{"dir": pc}})
 		d.SetContext(NewDecoderContext())
 		pd, _ := d.Path(lang.Path{Path: "dir"})
